@@ -12,8 +12,8 @@ META = {
              "member, values str (printable ASCII incl. | = > [), int, float, FMsg / FTag / FOrdStatus members; each return value or "
              "exception class compared with an ordered-list model, full structural comparison every 5 steps; distinct = hash of the op "
              "trace; non-trivial = trace contains a group operation, a refused set and an equality test"),
-    "assumptions": ["unspecified and never judged: non-canonical tag spellings ('007', ' 7'), negative group indexes, add_group onto a plain "
-                    "tag, deleting a missing tag, class objects as values, equality of permuted containers, gtag naming a nested group"],
+    "assumptions": ["unspecified and never judged: non-canonical tag spellings ('007', ' 7'), whether negative group indexes count from the end, which message error add_group onto a plain "
+                    "tag raises, deleting a missing tag, class objects as values, equality of permuted containers, gtag naming a nested group"],
 }
 REQUIRED_ORACLES = ["op-outcome", "structure", "equality", "pickle"]
 NSHARDS = 16
@@ -211,7 +211,14 @@ def run_seq(acc, rnd, nops, cid):
             expect(op, outcome(lambda: c.is_group(tf)), ("ret", None if i < 0 else isinstance(m[i][1], list)))
         elif op == "add_group":
             if i >= 0 and not isinstance(m[i][1], list):
-                continue  # unspecified
+                # a group item for a tag that holds a plain value: which documented error is unspecified, but it is one of the
+                # library's message errors (not an AttributeError from the inside) and the container stays as it is
+                acc.oracle("op-outcome")
+                acc.add("add_group_onto_a_plain_tag")
+                got = outcome(lambda: c.add_group(tf, {11: "x"}))
+                if got[0] != "exc" or got[1] not in ("UnmappedRepeatedGrpError", "DuplicatedTagError", "FIXMessageError"):
+                    V("op:add_group:onto-plain-tag", f"add_group on a tag holding a plain value: {got!r}, expected one of the documented message errors")
+                continue
             feats.add("group")
             item = ritem(1)
             if i >= 0 and m[i][1] and rnd.random() < 0.4:
@@ -256,6 +263,16 @@ def run_seq(acc, rnd, nops, cid):
             expect(op, got, exp)
         elif op == "by_index":
             idx = rnd.randrange(0, 4)
+            if rnd.random() < 0.2 and i >= 0 and isinstance(m[i][1], list):
+                # negative indexes: whether they count from the end is unspecified; what is not there is reported by the documented error
+                idx = -rnd.randrange(1, 6)
+                acc.oracle("op-outcome")
+                acc.add("group_lookups_with_a_negative_index")
+                got = outcome(lambda: walk(c.get_group_by_index(tf, idx)))
+                ok = got == ("exc", "TagNotFoundError") or (-idx <= len(m[i][1]) and got == ("ret", m[i][1][idx]))
+                if not ok:
+                    V("op:by_index:negative-index", f"get_group_by_index({idx}) on a group of {len(m[i][1])}: {got!r}")
+                continue
             got = outcome(lambda: walk(c.get_group_by_index(tf, idx)))
             if i < 0:
                 exp = ("exc", "TagNotFoundError")
